@@ -36,7 +36,8 @@ RULE = ("lludp hook: all pairs (quick) / triples (thorough) of 16 behaviours {re
         "{reliable, unreliable}; other hook points: handle_proxied_packet, session / region subscribers (named and "
         "wildcard), RLV command hook (one and several commands), object hooks; every scenario is followed by a plain "
         "message that must still get through all hooks; + every ownership-operation sequence of length <= 4 (quick) / 6 "
-        "(thorough) on a message. distinct_nontrivial = distinct (hook point, behaviour tuple, direction, reliability) scenarios")
+        "(thorough) on a message. distinct_nontrivial = distinct (hook point, behaviour tuple, direction, reliability) scenarios"
+        ". Round-5 additions: an addon loaded from a script file that hot-reloads a helper module, next to a healthy addon object; while traffic flows the files go bad (13 faults: dependency deleted / its directory replaced by a file / symlink loop / syntax error / raises on import; script deleted / directory gone / syntax error / raises on import / hook now raises / unload raises / init raises) and then change again (thorough: all 144 ordered pairs incl. the author repairing the script); the reload check runs before every message; every message must reach the healthy addon, the logger and the wire exactly once")
 ASSUMPTIONS = [
     "claims = truthy return, take(), explicit drop, the proxy's command channel; everything else must be forwarded exactly once",
     "a deep copy an addon sends itself is a different message (marked in its payload) and is not counted",
@@ -47,7 +48,8 @@ MUST_REACH = {"scenarios": 500, "hook_exceptions_raised": 100, "claims_observed"
               "ownership_sequences": 300, "illegal_reuse_rejected": 100, "subscriber_scenarios": 20, "predicate_scenarios": 8, "wait_for_scenarios": 4, "abandoned_wait_scenarios": 6, "rlv_scenarios": 6,
               "packet_hook_scenarios": 6, "object_hook_scenarios": 2, "script_addon_scenarios": 20, "script_addon_faults_survived": 18,
               "script_addon_hook_runs": 20, "script_reloads_observed": 6,
-              "script_addon_double_fault_scenarios": 10, "script_second_reloads_observed": 2}
+              "script_addon_double_fault_scenarios": 10, "script_second_reloads_observed": 2,
+              "arrival_messages_with_orphaned_tasks": 30}
 
 _ser = UDPMessageSerializer()
 _es = Settings()
@@ -469,7 +471,12 @@ def check_script_addons(ctx, fault, direction_in, reliable, second_fault=None):
         stamp[0] += 10
         os.utime(path, (stamp[0], stamp[0]))
 
-    def script(version, hook_body="return None", unload_body="pass", init_body="pass", module_level=""):
+    task_hook = ("if not getattr(self, '_hv_task', None):\n"
+                 "            import asyncio\n"
+                 "            self._hv_task = self._schedule_task(asyncio.sleep(3600), session=session, addon_scoped=False)\n"
+                 "        return None")
+
+    def script(version, hook_body=task_hook, unload_body="pass", init_body="pass", module_level=""):
         return _SCRIPT_TMPL.format(deps=deps, dep=dep_name, version=version, hook_body=hook_body, unload_body=unload_body,
                                    init_body=init_body, module_level=module_level)
 
@@ -493,7 +500,10 @@ def check_script_addons(ctx, fault, direction_in, reliable, second_fault=None):
             h.log.clear()
             del builtins._hv_c07_script_log[:]
             text, data = h.chat(direction_in, reliable)
-            exc = h.feed(direction_in, data)
+
+            async def _feed():          # (a running loop, as in the real proxy: hooks may schedule tasks)
+                return h.feed(direction_in, data)
+            exc = h.rig.loop.run_until_complete(_feed())
             try:
                 h.rig.run_loop_once()
             except Exception:
@@ -571,6 +581,40 @@ def check_script_addons(ctx, fault, direction_in, reliable, second_fault=None):
                 if any(v == "v3" for (v, _) in builtins._hv_c07_script_log):
                     ctx.count("script_second_reloads_observed")
             ctx.count("script_addon_double_fault_scenarios")
+        # whatever became of the script addon, a task it scheduled earlier (not tied to the addon's own life) may still be
+        # around when the avatar arrives in a region: that message, too, is nobody's but the viewer's
+        import gc
+        gc.collect()
+        AddonManager.LAST_RELOAD = None
+        h.log.clear()
+        amc = Message("AgentMovementComplete", Block("AgentData", AgentID=h.session.agent_id, SessionID=h.session.id),
+                      Block("Data", Position=(1.0, 2.0, 3.0), LookAt=(1.0, 0.0, 0.0), RegionHandle=h.region.handle or 1, Timestamp=1),
+                      Block("SimData", ChannelVersion="x"), packet_id=h.in_id, flags=0)
+        h.in_id += 1
+        before = len(h.rig.sendlog)
+        data = bytes(_ser.serialize(amc))
+
+        async def _feed_amc():
+            return h.feed(True, data)
+        exc = h.rig.loop.run_until_complete(_feed_amc())
+        sent = 0
+        for (_, out, addr) in h.rig.sendlog[before:]:
+            if addr == h.client:
+                un = socks_unwrap_ref(out)
+                try:
+                    if un is not None and _eager.deserialize(un[1]).name == "AgentMovementComplete":
+                        sent += 1
+                except Exception:
+                    pass
+        healthy_ran = len([e for e in h.log if e[1] == "lludp"])
+        if exc is not None or sent != 1 or healthy_ran != 1:
+            ctx.violation("script-addon-fault:" + fault + ":arrival-message" + (":raised" if exc is not None else ":not-once"
+                                                                               if sent != 1 else ":healthy-addon-skipped"),
+                          "with a task of a reloaded / unloaded script addon still scheduled, the avatar's arrival message was not "
+                          "handed to the other addon and put on the wire exactly once",
+                          dict(wit, exc=repr(exc)[:300], emitted=sent, healthy_addon_hook_runs=healthy_ran))
+            return
+        ctx.count("arrival_messages_with_orphaned_tasks")
         ctx.count("script_addon_scenarios")
         ctx.cover("script_faults", fault)
         if fault != "none":
